@@ -5,6 +5,45 @@ ROOT = os.path.dirname(os.path.dirname(os.path.abspath(__file__)))
 
 # id -> (technique, level text, level note, design ref)
 CHECKS = {
+ "C01": ("statistical (aggregate) monitor: batch-means Monte-Carlo estimate vs independently known closed-form integrals, sequential z-test; double-double re-evaluation of f64-pathological points",
+         "48 (quick) / 160 (thorough) configurations from seven closed-form families (rose of massive tadpoles with shifts and mixed routings, massless bubble, 3/4-line massless bananas, bubble chain, 2-loop vacuum sunrise, massive unit bubble), D=1..6, each under two routings, with bounded test functions of the loop momenta; 4e5 (quick) / 1.6e7 (thorough) calls of generate_sample_from_rng per configuration at stage 1, escalating x8 and x64 before a violation (|z|>6) is declared. Errors are counted and a fraction above 1e-5 is itself a violation. Decides the property only statistically: detectable bias ~ 6 standard errors (0.1-2% quick, ~0.03% thorough).",
+         "CLT for 64 batch means; closed forms evaluated with an independent Lanczos Gamma; configurations restricted to sub-dod >= 0.35 so that f64 cancellation in V has negligible measure (hostile corners belong to C02, C07-C11)", "§5 C01"),
+ "C02": ("reference-model monitor: brute-force tropical maxima and exact F coefficients vs returned u, v, jacobian at sector-directed corner points",
+         "For 200 (quick) / 4000 (thorough) accepted graphs, all sectors for E<=4/5 (random above) with corner points escalating until the exactly computed condition number of V reaches 1e8: U_tr<=u<=N_T U_tr, (c_min/N_T) V_tr<=v<=C_sum V_tr and jacobian/normalisation inside its graph-only interval.",
+         "generic kinematics; relative slack 1e-3; graphs with exactly one external vertex excluded (known finding F8 under C07)", "§5 C02"),
+ "C06": ("reference-model monitor with directed workload: exact rational cumulative sums vs the edge read from the debug log; every subgraph x every boundary",
+         "Every subset with >=2 edges of 160 (quick) / 2000 (thorough) graphs is driven to; u placed on +-0..3 ulp of every cumulative boundary, inside every interval, at 0, 5e-324, 2^-53, 1-2^-51..1-2^-53. Per graph the subgraph/boundary enumeration is complete.",
+         "within 64 eps of a boundary either neighbour is accepted (the code sums in f64); found and fixed the fall-through panic", "§5 C06"),
+ "C07": ("reference-model monitor: sector formula from exact omegas, brute-force tropical maxima, normalisation identity, from the debug log",
+         "All E! sectors for E<=4 (5 in thorough), random sectors above, xi uniform/benign/corner: ln x[s_k]=sum ln xi_j/omega(g_j); u_trop and u_trop*v_trop equal the largest monomials of U and generic F over spanning trees/2-forests; rescaled parameters are a common multiple and normalise U_tr^(D/2) V_tr^dod to 1.",
+         "two known findings recorded (rescaling overflow F7, single external vertex F8); points within 1e-9 of a boundary skipped as the property states", "§5 C07"),
+ "C08": ("reference-model + metamorphic monitor: exact rational L and spanning-tree sum vs Metadata.l_matrix and u; same point under 3 further routings",
+         "L entries (bitwise symmetric) and u against the exact first Symanzik polynomial at the logged Feynman parameters, tolerance 256*L*eps*kappa_F; oracle self-checked by the matrix-tree theorem on every point; routing independence on ~1e4 (quick) pairs.",
+         "points whose bound exceeds 1e-3 are counted as skipped", "§5 C08"),
+ "C09": ("reference-model + metamorphic monitor: exact 2-forest polynomial vs v*u; routing/orientation/offset changes",
+         "v*u against the exact second Symanzik polynomial (2-forest sum with exact rational momenta and masses), u_vectors against exact; u, v, jacobian compared across cycle bases, edge-orientation flips and loop-momentum offsets up to 2. Oracle self-checked on every point: exact V*U == exact F.",
+         "tolerance 256*eps*cond_V with cond_V computed exactly; ill-conditioned points skipped and counted", "§5 C09"),
+ "C10": ("reference-model monitor: exact rational quadratic form, L^-1 u and Cholesky map vs returned momenta and metadata",
+         "shift vs exact L^-1 u; sum_e x_e(|q_e|^2+m_e^2) evaluated exactly at the returned momenta vs v(1+|q|^2/2lambda); Q^T(k+L^-1u)=sqrt(v/2lambda) q component-wise with the returned factor verified to be the unique Cholesky factor (pins Q^-T against Q^-1 and rotated variants). All 30 (D,L) pairs counted.",
+         "condition-scaled tolerances; hostile Gaussian/lambda coordinates included", "§5 C10"),
+ "C11": ("reference-model monitor: formula on returned u,v and gauge invariance from the unrescaled parameters with the oracle's own normalisation",
+         "returned u_trop=v_trop=1 exactly; jacobian vs (1/u)^(D/2)(1/v)^dod*normalisation; vs N (U_tr/U)^(D/2)(V_tr/V)^dod evaluated exactly at the UNRESCALED parameters with N from the independent J/Gamma oracle.",
+         "single-external graphs excluded from the gauge clause (F8)", "§5 C11"),
+ "C13": ("reference-model monitor: Box-Muller of the designated coordinate pairs vs Metadata.q_vectors",
+         "All 30 (D,L) pairs in rotation; a down to 5e-324 and up to 1-2^-53, b on octant boundaries +-2 ulp; every component compared (tolerance 32 eps max(1,r)); shape L x D.",
+         "a in (0,1) as the property states", "§5 C13"),
+ "C14": ("instrumented-scalar monitor (dynamic taint tracking through a user-supplied MomTropFloat) + black-box metamorphic perturbation monitor",
+         "Per execution: dependency sets of u, v, jacobian, L, lambda, every Gaussian component and the control set are compared with the roles the property assigns; extra coordinates ignored; n-1 coordinates panic; single-coordinate perturbations change only (and do change) the outputs of their role.",
+         "dependency sets are properties of the executions observed, not of all paths", "§5 C14"),
+ "C17": ("metamorphic monitors (history, 16 threads on a shared sampler with overlap counting, separate processes, RNG entry, settings) + TSan and Miri many-seeds in thorough",
+         "Bit-identical results for a 24-point probe set after 600/5000 unrelated calls on the same sampler, from 16 concurrent threads (overlapping call pairs counted; none observed => inconclusive), from 2-4 fresh processes; RNG entry draws exactly get_dimension() numbers; settings do not change numbers. Thorough adds ThreadSanitizer and Miri schedules.",
+         "interleavings reached: native scheduling with jitter, TSan happens-before analysis of those runs, Miri seeds", "§5 C17, §6"),
+ "C18": ("metamorphic monitor: JSON and CBOR round trips, byte-identical re-serialisation and bit-identical samples",
+         "300 (quick) / 5000 (thorough) graphs x 40-60 probe points (all sectors for E<=4, corners, boundary-adjacent, stability test on/off) through serde_json and ciborium.",
+         "formats: serde_json with float_roundtrip, CBOR", "§5 C18"),
+ "C19": ("instrumented-scalar monitors: #[track_caller] census of to_f64/from_f64 call sites, and 106-bit double-double residuals of algebraic identities",
+         "Every narrowing observed while sample() runs with the census scalar must lie inside inverse_gamma_lr (line range parsed from the current source) and be exactly (shape, probability, tolerance); with a double-double scalar seven identities among returned values hold to 2^-90*kappa (observed 2^-84), where any f64 detour leaves 2^-53.",
+         "three scalar types represent 'any type implementing MomTropFloat'", "§5 C19"),
  "C03": ("reference-model monitor: union-find/rational definitions vs the serialised table, all 2^E subsets per graph",
          "For each of ~2e4 (quick) / 5e5 (thorough) random multigraphs (self-loops, parallel edges, disconnected, arbitrary labels, untouched externals, all mass patterns, D=1..6) every one of the 2^E table entries is compared with definitions evaluated by an independent union-find / exact-rational oracle; per graph the check is exhaustive, over graphs it is sampled.",
          "table index <-> subset bit convention as documented; tolerance 8*E*eps*(sum w + D*E/2) on dod (exact for dyadic weights)", "§5 C03"),
